@@ -373,6 +373,7 @@ type effect struct {
 	Kind  byte // A append, F flush, P/V/C broadcast proposal/prevote/precommit, T timeout scheduling, K commit callback, D prune
 	Inc   int
 	Input int // index of the input being processed in its phase (-1 = start / replay)
+	Batch int // number of Process* calls the driver had made into the machine: effects of one action list share it
 	Desc  string
 }
 
@@ -386,6 +387,7 @@ const (
 type crashSpec struct {
 	At   int // effect index
 	When int
+	Dump bool // take the canonical dump of the killed process's machine at the kill instant
 }
 
 type sentinel struct{}
@@ -432,6 +434,10 @@ type world struct {
 	viol  []violation
 
 	wantDump bool // take the canonical machine dumps at the end of the replay
+
+	batch    int
+	proc     *proc  // the running incarnation
+	killCore string // dump of its machine at the kill instant (crash.Dump)
 }
 
 type violation struct {
@@ -453,7 +459,7 @@ func (w *world) enter(kind byte, desc string) int {
 	if w.crash != nil && w.crash.At == idx && w.crash.When == crashBefore {
 		w.kill()
 	}
-	w.effects = append(w.effects, effect{Kind: kind, Inc: w.inc, Input: w.cur, Desc: desc})
+	w.effects = append(w.effects, effect{Kind: kind, Inc: w.inc, Input: w.cur, Batch: w.batch, Desc: desc})
 	return idx
 }
 
@@ -472,6 +478,10 @@ func (w *world) kill() {
 		w.deadOps = w.real.fs.NumOps()
 	}
 	w.deadCommitted = w.committed
+	if w.crash != nil && w.crash.Dump && w.proc != nil {
+		// the driver goroutine is inside a harness object: the machine is not being mutated
+		w.killCore = dumpCore(w.proc.sm)
+	}
 	panic(sentinel{})
 }
 
@@ -519,7 +529,10 @@ type smProxy struct {
 	p *proc
 }
 
-func (s *smProxy) sync() { s.p.app.H = s.machine.Height() }
+func (s *smProxy) sync() {
+	s.p.app.H = s.machine.Height()
+	s.p.w.batch++
+}
 
 func (s *smProxy) ProcessStart(r types.Round) []starknet.Action {
 	if !s.p.replayDone {
@@ -751,6 +764,7 @@ func (w *world) newBackend() walBackend {
 // (what consensus.Init does with the blockchain height), a fresh Application incarnation and a fresh Driver.
 func (w *world) boot() *proc {
 	p := &proc{w: w, inc: w.inc}
+	w.proc = p
 	p.app = &app{Variant: w.cfg.App, Inc: w.inc}
 	p.sm = tendermint.New[V, H, A](log.NewNopZapLogger(), addrS, p.app, validators{w.cfg.Role}, w.committed+1)
 	p.be = w.newBackend()
